@@ -47,8 +47,14 @@ package bufgen
 //
 //@ func (g *generator) execPlugins(ctx, container, pluginConfigs, image, includeImportsOverride, includeWellKnownTypesOverride) (r, err)
 //@   property C17
-//@   modifies heap, ghost.fail, ghost.wfail, ghost.sinkPaths, ghost.sinkBuckets, ghost.lastPutOptions
+//@   modifies heap, ghost.fail, ghost.wfail, ghost.sinkPaths, ghost.sinkBuckets, ghost.lastPutOptions, ghost.re_rw, ghost.re_fail0, ghost.re_respFrom, ghost.re_handleN, ghost.re_handleBy, ghost.re_handleReq, ghost.re_handleCGR, ghost.re_handleRW, ghost.re_handleErr, ghost.re_genN, ghost.re_genBy, ghost.re_genHandler, ghost.re_genReqs, ghost.re_genResp, ghost.re_genErr, ghost.re_lookN, ghost.re_looked, ghost.re_lookPath, ghost.re_lookErr, ghost.re_rawErr, ghost.re_hoPlugin, ghost.re_hoProtoc, ghost.re_handler, ghost.re_handlerErr, ghost.re_nhOpts, ghost.re_goPlugin, ghost.re_goProtoc, ghost.re_xgenN, ghost.re_xgenBy, ghost.re_xgenName, ghost.re_xgenReqs, ghost.re_xgenOpts, ghost.re_xgenResp, ghost.re_xgenErr, ghost.re_builtReqs, ghost.re_buildErr, ghost.re_remoteReqs, ghost.re_remoteAnswered, ghost.re_remoteResps, ghost.re_runN, ghost.re_runName, ghost.re_runOpts, ghost.re_runErr, ghost.re_rwFilesN, ghost.re_rwFilesTo, ghost.re_rwFiles, ghost.re_rwErrN, ghost.re_rwErrTo, ghost.re_rwErrMsg, ghost.re_binResp, ghost.re_binDecoded, ghost.re_verBuf, ghost.re_verText, ghost.buf
+//@   loop 0 invariant ghost.fail == $entry(ghost.fail) && ghost.wfail == $entry(ghost.wfail)
+//@   loop 2 invariant ghost.fail == $entry(ghost.fail) && ghost.wfail == $entry(ghost.wfail)
 //@   ensures one-response-per-plugin: err == nil ==> len(r) == len(pluginConfigs) && (forall i int :: 0 <= i && i < len(r) ==> r[i] != nil)
+// every group of plugin configurations starts from the image execPlugins was given: a group's type filter is applied
+// to the INPUT image (never to an image already filtered for another group), and an unfiltered group uses it as is
+//@   assert before "image, err = bufimageutil.FilterImage(" each-group-filters-the-input-image: image == $entry(image)
+//@   assert before "if remote := pluginConfigForKey.RemoteHost(); remote != \"\"" unfiltered-group-uses-the-input-image: len(pluginConfigForKey.IncludeTypes()) == 0 && len(pluginConfigForKey.ExcludeTypes()) == 0 ==> image == $entry(image)
 //@   ensures reported: ghost.fail && !old(ghost.fail) ==> err != nil
 //@   ensures write-reported: ghost.wfail && !old(ghost.wfail) ==> err != nil
 //
@@ -59,7 +65,7 @@ package bufgen
 // aborts without Close, so nothing reaches the disk.
 //@ func (g *generator) generateCode(ctx, container, inputImage, baseOutDir, pluginConfigs, includeImportsOverride, includeWellKnownTypesOverride) (err)
 //@   property C17
-//@   modifies heap, ghost.fail, ghost.wfail, ghost.sinkPaths, ghost.sinkBuckets, ghost.lastPutOptions, ghost.buf, ghost.v_scanPos, ghost.v_scanEnded, ghost.v_match, ghost.v_ipRead, ghost.v_wrCalls, ghost.j_osStat, ghost.j_osWrite, ghost.v_statErr, ghost.v_addN, ghost.v_addResp, ghost.v_addOut, ghost.cbCalls, ghost.cbArgs, ghost.cbArg0, ghost.cbArg1, ghost.cbArg2, ghost.cbArg3, ghost.v_closeCalls, ghost.v_addNAtClose, ghost.v_responses, ghost.v_execErr
+//@   modifies heap, ghost.fail, ghost.wfail, ghost.sinkPaths, ghost.sinkBuckets, ghost.lastPutOptions, ghost.buf, ghost.v_scanPos, ghost.v_scanEnded, ghost.v_match, ghost.v_ipRead, ghost.v_wrCalls, ghost.j_osStat, ghost.j_osWrite, ghost.v_statErr, ghost.v_addN, ghost.v_addResp, ghost.v_addOut, ghost.cbCalls, ghost.cbArgs, ghost.cbArg0, ghost.cbArg1, ghost.cbArg2, ghost.cbArg3, ghost.v_closeCalls, ghost.v_addNAtClose, ghost.v_responses, ghost.v_execErr, ghost.re_rw, ghost.re_fail0, ghost.re_respFrom, ghost.re_handleN, ghost.re_handleBy, ghost.re_handleReq, ghost.re_handleCGR, ghost.re_handleRW, ghost.re_handleErr, ghost.re_genN, ghost.re_genBy, ghost.re_genHandler, ghost.re_genReqs, ghost.re_genResp, ghost.re_genErr, ghost.re_lookN, ghost.re_looked, ghost.re_lookPath, ghost.re_lookErr, ghost.re_rawErr, ghost.re_hoPlugin, ghost.re_hoProtoc, ghost.re_handler, ghost.re_handlerErr, ghost.re_nhOpts, ghost.re_goPlugin, ghost.re_goProtoc, ghost.re_xgenN, ghost.re_xgenBy, ghost.re_xgenName, ghost.re_xgenReqs, ghost.re_xgenOpts, ghost.re_xgenResp, ghost.re_xgenErr, ghost.re_builtReqs, ghost.re_buildErr, ghost.re_remoteReqs, ghost.re_remoteAnswered, ghost.re_remoteResps, ghost.re_runN, ghost.re_runName, ghost.re_runOpts, ghost.re_runErr, ghost.re_rwFilesN, ghost.re_rwFilesTo, ghost.re_rwFiles, ghost.re_rwErrN, ghost.re_rwErrTo, ghost.re_rwErrMsg, ghost.re_binResp, ghost.re_binDecoded, ghost.re_verBuf, ghost.re_verText
 //@   ghost after "responses, err := g.execPlugins(" v_responses := responses
 //@   ghost after "responses, err := g.execPlugins(" v_execErr := err
 //@   reveal v_outOf
@@ -96,7 +102,7 @@ package bufgen
 //@ inline func newGenerateOptions
 //@ func (g *generator) Generate(ctx, container, config, images, options) (err)
 //@   property C17
-//@   modifies heap, ghost.fail, ghost.wfail, ghost.sinkPaths, ghost.sinkBuckets, ghost.lastPutOptions, ghost.buf, ghost.v_scanPos, ghost.v_scanEnded, ghost.v_match, ghost.v_ipRead, ghost.v_wrCalls, ghost.j_osStat, ghost.j_osWrite, ghost.v_statErr, ghost.v_addN, ghost.v_addResp, ghost.v_addOut, ghost.cbCalls, ghost.cbArgs, ghost.cbArg0, ghost.cbArg1, ghost.cbArg2, ghost.cbArg3, ghost.v_closeCalls, ghost.v_addNAtClose, ghost.v_responses, ghost.v_execErr, ghost.v_osRoots, ghost.v_cleanedOuts, ghost.v_cleanAtAddN, ghost.v_cleanCalls
+//@   modifies heap, ghost.fail, ghost.wfail, ghost.sinkPaths, ghost.sinkBuckets, ghost.lastPutOptions, ghost.buf, ghost.v_scanPos, ghost.v_scanEnded, ghost.v_match, ghost.v_ipRead, ghost.v_wrCalls, ghost.j_osStat, ghost.j_osWrite, ghost.v_statErr, ghost.v_addN, ghost.v_addResp, ghost.v_addOut, ghost.cbCalls, ghost.cbArgs, ghost.cbArg0, ghost.cbArg1, ghost.cbArg2, ghost.cbArg3, ghost.v_closeCalls, ghost.v_addNAtClose, ghost.v_responses, ghost.v_execErr, ghost.v_osRoots, ghost.v_cleanedOuts, ghost.v_cleanAtAddN, ghost.v_cleanCalls, ghost.re_rw, ghost.re_fail0, ghost.re_respFrom, ghost.re_handleN, ghost.re_handleBy, ghost.re_handleReq, ghost.re_handleCGR, ghost.re_handleRW, ghost.re_handleErr, ghost.re_genN, ghost.re_genBy, ghost.re_genHandler, ghost.re_genReqs, ghost.re_genResp, ghost.re_genErr, ghost.re_lookN, ghost.re_looked, ghost.re_lookPath, ghost.re_lookErr, ghost.re_rawErr, ghost.re_hoPlugin, ghost.re_hoProtoc, ghost.re_handler, ghost.re_handlerErr, ghost.re_nhOpts, ghost.re_goPlugin, ghost.re_goProtoc, ghost.re_xgenN, ghost.re_xgenBy, ghost.re_xgenName, ghost.re_xgenReqs, ghost.re_xgenOpts, ghost.re_xgenResp, ghost.re_xgenErr, ghost.re_builtReqs, ghost.re_buildErr, ghost.re_remoteReqs, ghost.re_remoteAnswered, ghost.re_remoteResps, ghost.sweepCount, ghost.rg_warnMsgs, ghost.re_runN, ghost.re_runName, ghost.re_runOpts, ghost.re_runErr, ghost.re_rwFilesN, ghost.re_rwFilesTo, ghost.re_rwFiles, ghost.re_rwErrN, ghost.re_rwErrTo, ghost.re_rwErrMsg, ghost.re_binResp, ghost.re_binDecoded, ghost.re_verBuf, ghost.re_verText
 //@   ensures clean-at-most-once: ghost.v_cleanCalls == old(ghost.v_cleanCalls) || ghost.v_cleanCalls == old(ghost.v_cleanCalls) + 1
 //@   ensures clean-before-generate: ghost.v_cleanCalls != old(ghost.v_cleanCalls) ==> ghost.v_cleanAtAddN == old(ghost.v_addN)
 // (Whether --clean is in force - config.CleanPluginOuts() unless overridden by an option - is not claimed: the option
